@@ -1937,9 +1937,19 @@ func (e *Engine) WriteSnapshot() (err error) {
 			}
 		}
 
+		// A snapshot whose write failed is handed out again for a retry. It holds
+		// nothing written since it was first taken, so the segments closed since
+		// then are not covered by it. Leave every closed segment in place for the
+		// next snapshot of the live cache.
+		retry := e.Cache.SnapshotRetained()
+
 		snapshot, err = e.Cache.Snapshot()
 		if err != nil {
 			return
+		}
+
+		if retry {
+			segments = nil
 		}
 
 		return
